@@ -61,9 +61,13 @@ def first_diff(a, b):
     return f"length {len(la)} vs {len(lb)} lines"
 
 
-def run_chain(spec, points, schedule_seed=0, workers_policy="oldest"):
-    """Clean stops at the given cumulative step counts; returns (snapshot, cfg, results)."""
+def run_chain(spec, points, schedule_seed=0, workers_policy="oldest", prelude=None):
+    """Clean stops at the given cumulative step counts; returns (snapshot, cfg, results).
+    prelude: every lifetime is preceded by an unrelated simulation in the same interpreter."""
     segs = [{"steps": p, "policy": workers_policy, "policy_seed": schedule_seed} for p in points]
+    if prelude:
+        for sg in segs:
+            sg["prelude"] = dict(prelude)
     h = simdrv.run_history(spec, segs, {}, keep=True)
     try:
         for k, r in enumerate(h["results"]):
@@ -128,10 +132,13 @@ def body_split(rec, c):
                   f"{mode}: {ref_chain} vs {other}; differing: {dk[:6]}; first: {first_diff(a.get(k0), b.get(k0))}\n  spec={spec}")
     # two identical executions agree
     if c["N"] % 3 == 0:
-        a2, _, _ = run_chain(spec, ref_chain)
+        # (the second execution may come after an unrelated simulation in the same interpreter - a script that runs several)
+        pre = {"steps": 3 + c["N"] % 5, "seed": c["N"]} if c["N"] % 2 == 0 else None
+        a2, _, _ = run_chain(spec, ref_chain, prelude=pre)
         dk = diff_keys(a, a2)
-        rec.cls("repeat-compared")
-        rec.check(not dk, "C06:same-seed-different-run", f"{dk[:5]} spec={spec}")
+        rec.cls("repeat-compared" + (":after-another-simulation-in-the-interpreter" if pre else ""))
+        rec.check(not dk, "C06:same-seed-different-run" + (":after-another-simulation-in-the-interpreter" if pre else ""),
+                  f"{dk[:5]}; first: {first_diff(a.get(dk[0]), a2.get(dk[0])) if dk else ''} spec={spec}")
     # (c) restarting a finished run is a no-op
     if c["N"] % 4 == 0:
         a3, cfg3, res3 = run_chain(spec, other + [N])
